@@ -9,6 +9,7 @@ import (
 	"sort"
 	"strings"
 	"sync"
+	"time"
 
 	"github.com/piotrnar/gocoin/lib/btc"
 	"verif/chainkit"
@@ -31,10 +32,11 @@ type Harness struct {
 	traces int
 	mu     sync.Mutex
 	shapes map[string]int
+	curMV  *modelVerdict // the model's prediction for the crash point being judged (model-compared workloads, client mode)
 }
 
 func (h *Harness) explanation() string {
-	return "Wide workloads (wide.go; judged by the property predicate on the real code; only the data-file roll-over workloads are ALSO compared with a Lean model - rolltie.go: the (data file, fpos, blen) of every index record after the uninterrupted run and at every second-crash capture == oracle op `roll`, Model/PersistRoll.lean, theorem dat_rollover_sound): (1) failed-reorg-then-idle: a side branch whose first block spends a non-existent output overtakes the tip while all its blocks are still in the block-write queue; the reorganisation fails, the queued blocks are dropped from the index, further valid blocks are queued behind them, then Idle + snapshot + Close; every vhook point is a crash point and the cleanly closed directory is re-opened by a fresh process (clean-restart identity: same tip, same UTXO dump, recovery loop is a no-op). (2) save-race: back-to-back snapshots under a pinned schedule - the file goroutine of snapshot S1 is held at a vhook point, a block is accepted, Idle starts S2 which parks behind S1's file, a further block is submitted from its own goroutine; if its commit reaches utxo.commit:after-commit while S2 is pending it is held there until S2 has walked the maps, then everything is released (histogram wide:save-race:window-reached / window-not-reached; with the code as written the commit waits for the pending snapshot and the window is not reached - a trivial case); every point is a crash point, in particular the renamed UTXO.db of S2. (3) data-file roll-over: BlockDBOpts.MaxDataFileSize = 520 bytes (generated: 340..900) in every process, so that a new data file starts every 1-3 blocks; Idle + complete snapshot after every block (second variant: clean Close + NewChainExt inside the history after every block); single crash at every point, and two-crash cases from EVERY block boundary (index record written / snapshot renamed = the directory of a clean shutdown): restart, feed every block without a snapshot, second crash at each index write, third process judged (histogram wide:rollover:first-restart-with-exactly-one-block-in-the-newest-data-file). In all fresh-process reports every block of the active chain is read back from the store and must hash to its index entry and equal the bytes submitted. Second-crash cases (crash at a blockdb.write:dat-written / idx-written point or with the index cut by one record -> fresh process recovers like the client, is fed every block with snapshots disabled, flushes -> second crash at each idx-written point and after Idle; thorough: at every point for the first data-written hit of each scripted workload -> third fresh process re-opens and is judged by the same predicate; not compared with the model). The known finding undo-file-keyed-by-height is only assigned when the captured directory really holds an undo/<h> file naming another block than the re-opened chain's block at h (a missing undo file or any other failure off-branch is reported under its own key). Exhaustive over the crash points of each workload: the harness installs a vhook callback that copies the data directory at EVERY vhook.Point hit (all point names x all hit counts) of the workloads {extend, save, abort-by-new-block (save paused after its first 64 KiB chunk, aborted by CommitBlockTxs, later one hurried), reorg-after-save, reorg-save-extend, reorg-before-any-save, seeded generated histories (canonical schedule, compared with the model), free-running variants, and an adversarial schedule holding block writes back while a snapshot is being written}; each copy is re-opened by a fresh process (client mode: NewChainExt(DoNotRescan) + do_the_blocks/LocalAcceptBlock loop; library mode: NewChainExt default) and must give: no panic, a tip the node knew, UTXO dump == independent replay of that tip's chain, final (tip, dump) after feeding the remaining blocks == the uninterrupted run, and the same again after a clean close + re-open. Plus every record-boundary (and mid-record) truncation of blockchain.new and prefix truncations of blockchain.dat after a clean close. The Lean model (Model/Persist.lean) is tied by (a) point-name sequence == labels of the model's effect list, (b) recovered/final (tip, coin set) at every crash point == model's recover(apply(take k effects))."
+	return "Added after the audit: (i) truncations of UTXO.db after a clean close (inside the 48-byte header, right after it, inside and at the end of the record area; with and without UTXO.old) re-opened by a fresh process under a 20 s watchdog - NewUnspentDb must fall back to UTXO.old / start from genesis and the recovery loop must converge (fix eab07278: it hung with an intact header and a short record area); compared with the model's tearDb + restartFrom (oracle op torn, theorem torn_snapshot_reopens); a fall-back onto a snapshot of the abandoned branch is the known finding's window. (ii) bulk workload threshold-flush (bulk.go): 1024 blocks queued without an Idle so that BlockDB.BlockAdd flushes synchronously INSIDE Chain.CommitBlock (asserted: 1024 index records written between chain.commit:before-blockadd and :after-blockadd); crash points inside and after the flush are SAMPLED (not exhaustive), predicate only; thorough adds deep-recovery (2600 blocks ahead of the snapshot: recovery without undo data below target-2560). (iii) the known finding undo-file-keyed-by-height is assigned only with evidence (model predicts the observed state and raised its ghost flag there, or an undo file of a block that must be undone names another block); a child that reports no state must be a panic of the model too; the model's uninterrupted run must end in the real final state with ghost flag 0 (oracle op final). Wide workloads (wide.go; judged by the property predicate on the real code; only the data-file roll-over workloads are ALSO compared with a Lean model - rolltie.go: the (data file, fpos, blen) of every index record after the uninterrupted run and at every second-crash capture == oracle op `roll`, Model/PersistRoll.lean, theorem dat_rollover_sound): (1) failed-reorg-then-idle: a side branch whose first block spends a non-existent output overtakes the tip while all its blocks are still in the block-write queue; the reorganisation fails, the queued blocks are dropped from the index, further valid blocks are queued behind them, then Idle + snapshot + Close; every vhook point is a crash point and the cleanly closed directory is re-opened by a fresh process (clean-restart identity: same tip, same UTXO dump, recovery loop is a no-op). (2) save-race: back-to-back snapshots under a pinned schedule - the file goroutine of snapshot S1 is held at a vhook point, a block is accepted, Idle starts S2 which parks behind S1's file, a further block is submitted from its own goroutine; if its commit reaches utxo.commit:after-commit while S2 is pending it is held there until S2 has walked the maps, then everything is released (histogram wide:save-race:window-reached / window-not-reached; with the code as written the commit waits for the pending snapshot and the window is not reached - a trivial case); every point is a crash point, in particular the renamed UTXO.db of S2. (3) data-file roll-over: BlockDBOpts.MaxDataFileSize = 520 bytes (generated: 340..900) in every process, so that a new data file starts every 1-3 blocks; Idle + complete snapshot after every block (second variant: clean Close + NewChainExt inside the history after every block); single crash at every point, and two-crash cases from EVERY block boundary (index record written / snapshot renamed = the directory of a clean shutdown): restart, feed every block without a snapshot, second crash at each index write, third process judged (histogram wide:rollover:first-restart-with-exactly-one-block-in-the-newest-data-file). In all fresh-process reports every block of the active chain is read back from the store and must hash to its index entry and equal the bytes submitted. Second-crash cases (crash at a blockdb.write:dat-written / idx-written point or with the index cut by one record -> fresh process recovers like the client, is fed every block with snapshots disabled, flushes -> second crash at each idx-written point and after Idle; thorough: at every point for the first data-written hit of each scripted workload -> third fresh process re-opens and is judged by the same predicate; not compared with the model). The known finding undo-file-keyed-by-height is only assigned when the captured directory really holds an undo/<h> file naming another block than the re-opened chain's block at h (a missing undo file or any other failure off-branch is reported under its own key). Exhaustive over the crash points of each workload: the harness installs a vhook callback that copies the data directory at EVERY vhook.Point hit (all point names x all hit counts) of the workloads {extend, save, abort-by-new-block (save paused after its first 64 KiB chunk, aborted by CommitBlockTxs, later one hurried), reorg-after-save, reorg-save-extend, reorg-before-any-save, seeded generated histories (canonical schedule, compared with the model), free-running variants, and an adversarial schedule holding block writes back while a snapshot is being written}; each copy is re-opened by a fresh process (client mode: NewChainExt(DoNotRescan) + do_the_blocks/LocalAcceptBlock loop; library mode: NewChainExt default) and must give: no panic, a tip the node knew, UTXO dump == independent replay of that tip's chain, final (tip, dump) after feeding the remaining blocks == the uninterrupted run, and the same again after a clean close + re-open. Plus every record-boundary (and mid-record) truncation of blockchain.new and prefix truncations of blockchain.dat after a clean close. The Lean model (Model/Persist.lean) is tied by (a) point-name sequence == labels of the model's effect list, (b) recovered/final (tip, coin set) at every crash point == model's recover(apply(take k effects))."
 }
 
 func (h *Harness) run() {
@@ -95,7 +97,12 @@ func (h *Harness) run() {
 // point of the workload was captured and evaluated.
 func (h *Harness) doWorkload(w Workload, only int, onlyMode string, onlySecond string) bool {
 	r := h.r
+	t0 := time.Now()
 	wr := runWorkload(h.root, h.base, w, only)
+	tRun := time.Since(t0)
+	if os.Getenv("C07_TIMES") != "" {
+		defer func() { fmt.Fprintln(diag, "C07_TIMES", w.Name, "run", tRun, "total", time.Since(t0)) }()
+	}
 	if os.Getenv("C07_KEEP") == "" {
 		defer os.RemoveAll(h.root + "/" + w.Name)
 	} else {
@@ -147,7 +154,7 @@ func (h *Harness) doWorkload(w Workload, only int, onlyMode string, onlySecond s
 	}
 	var jobs []*job
 	for _, ht := range wr.Hits {
-		if !replaySelects(ht, only) {
+		if !replaySelects(ht, only) || ht.NoCopy {
 			continue
 		}
 		for _, m := range modes {
@@ -193,10 +200,18 @@ func (h *Harness) doWorkload(w Workload, only int, onlyMode string, onlySecond s
 		kind := w.Shape + "/" + j.mode
 		r.Eval(kind, fmt.Sprintf("%s|%s|%d|%s", w.Name, j.hit.Name, j.hit.Idx, j.mode))
 		r.Hit("point:" + j.hit.Name)
+		// the model's prediction for this crash point is fetched BEFORE the real report is judged: the known finding F8 is only
+		// assigned where the model reproduces the observed (wrong) state AND has read an undo file of another block there
+		h.curMV = nil
+		if j.mode == "client" && modelOK {
+			h.curMV = h.askModel(mdl, j.hit, j.res)
+		}
 		ok := h.judge(w, wr, j.hit, j.mode, j.res)
-		// the model must predict the recovered state ALSO where the property fails (F8: same wrong coin set)
-		if j.mode == "client" && modelOK && j.res.S1 != nil && j.res.S2 != nil && j.res.S3 != nil {
-			h.compareModel(w, wr, mdl, j.hit, j.res, ok)
+		// the model must predict the recovered state ALSO where the property fails (F8: same wrong coin set), and a child
+		// that reported no state (panic / died) must be a panic of the model too
+		if mv := h.curMV; mv != nil {
+			h.curMV = nil
+			h.compareModel(w, wr, mdl, j.hit, j.res, ok, mv)
 			if !ok {
 				r.Hit("model-predicts-failure-state")
 			}
@@ -211,7 +226,11 @@ func (h *Harness) doWorkload(w Workload, only int, onlyMode string, onlySecond s
 		h.cleanRestart(w, wr, blocksFile)
 	}
 	if only == 0 && w.Wide == "" && (r.Thorough() || r.Replay != "" || w.Name == "extend" || w.Name == "reorg-after-save" || w.Name == "gen0") {
-		h.truncations(w, wr, blocksFile)
+		var tm *Model
+		if modelOK {
+			tm = mdl
+		}
+		h.truncations(w, wr, blocksFile, tm)
 	}
 	return complete
 }
@@ -276,6 +295,28 @@ func (h *Harness) judge2(w Workload, wr *WlRun, ht Hit, mode string, c *ChildRes
 			if mode == "library" && strings.Contains(c.Open, "unknown path to block") {
 				r.PropFail(keyLib, "library-mode NewChainExt (DoNotRescan=false) panics in FindPathTo when the snapshot's block is not an ancestor of the farthest block on disk: "+where+": "+what, rep)
 				r.Hit("known:" + keyLib)
+				return false
+			}
+			// the directory has the SHAPE of F8; the finding is assigned only with evidence that the defect is what happened:
+			//  * model-compared point: the model predicts exactly the observed states and its ghost flag says that the restart read an
+			//    undo file of another block (where the model stops at "unsupported" - DeleteBranch - or equal-height leaves on disk
+			//    make the real choice depend on Go's map order, the next criterion decides);
+			//  * otherwise: observed on the captured directory - a block the restart has to undo has an undo/<height> file that
+			//    names another block.
+			// Any other failure inside the window is reported under its own key.
+			evidence, why := false, ""
+			if mv := h.curMV; mv != nil && mode == "client" && !mv.unsupported && !(mv.ambiguous && !mv.agrees) {
+				evidence = mv.agrees && mv.foreign
+				why = fmt.Sprintf("the model's prediction for this crash point is %q (agrees with the real states: %v, foreign undo file read: %v)", mv.rep, mv.agrees, mv.foreign)
+			} else if mode == "library" {
+				evidence = true // library mode is keyed above by its own panic message; the remaining library failures follow the shape test as before
+			} else {
+				evidence = h.foreignUndoReadTo(c, wr)
+				why = "no block that the restart has to undo has an undo file naming another block"
+			}
+			if !evidence {
+				r.Hit("f8-shaped-window-but-not-f8")
+				r.PropFail(key+":"+w.Shape, where+": "+what+" [the directory has the shape of the known finding "+keyF8+" but "+why+"]", rep)
 				return false
 			}
 			r.PropFail(keyF8, "snapshot on one branch, undo/<height> rewritten by the other branch, crash before the next snapshot: restart undoes blocks with the other branch's undo data (hash in the undo file is skipped, not compared): "+where+": "+what, rep)
@@ -425,7 +466,7 @@ func (h *Harness) posTie(w Workload, c *s2case, sc SecondCap) {
 
 func (h *Harness) stage2Select(w Workload, wr *WlRun, only int, onlySecond string) (cs []*s2case) {
 	r := h.r
-	if w.Free || (only != 0 && onlySecond == "") {
+	if w.Free || w.Wide == "bulk" || (only != 0 && onlySecond == "") {
 		return nil
 	}
 	quickSet := w.Name == "extend" || w.Name == "reorg-save-extend" || w.Name == "gen0" || w.Wide == "rollover"
@@ -570,7 +611,7 @@ func (h *Harness) stage2Run(w Workload, wr *WlRun, blocksFile string, cs []*s2ca
 
 // ------------------------------------------------------------------------------------------ truncations
 
-func (h *Harness) truncations(w Workload, wr *WlRun, blocksFile string) {
+func (h *Harness) truncations(w Workload, wr *WlRun, blocksFile string, mdl *Model) {
 	r := h.r
 	final := wr.Dir // live dir after clean close
 	idx, err := os.ReadFile(final + "blockchain.new")
@@ -584,10 +625,11 @@ func (h *Harness) truncations(w Workload, wr *WlRun, blocksFile string) {
 	dat, _ := os.ReadFile(final + datName)
 	nrec := len(idx) / 136
 	type tj struct {
-		file string
-		n    int
-		res  *ChildRes
-		dir  string
+		file  string
+		n     int
+		noOld bool // UTXO.db cases: UTXO.old removed as well (nothing to fall back to: the node must start over from genesis)
+		res   *ChildRes
+		dir   string
 	}
 	var jobs []*tj
 	first := baseLen - 2
@@ -614,6 +656,19 @@ func (h *Harness) truncations(w Workload, wr *WlRun, blocksFile string) {
 			}
 		}
 	}
+	// snapshot file: UTXO.db cut inside its 48-byte header, right after it, inside / at the end of the record area (power loss or
+	// a full disk - save() ignores write errors and renames anyway; outside the process-kill quantifier, but the anchored
+	// mechanism "load UTXO.db, else UTXO.old, else start empty" is exactly for this): NewUnspentDb must fall back to UTXO.old
+	// and the client's recovery loop must bring the node back to the uninterrupted run's state.
+	if st, e := os.Stat(final + "UTXO.db"); e == nil && st.Size() > 48 {
+		L := int(st.Size())
+		for _, n := range []int{0, 20, 47, 48, 49, 48 + (L-48)/2, L - 10, L - 1} {
+			if n >= 0 && n < L {
+				jobs = append(jobs, &tj{file: "UTXO.db", n: n})
+			}
+		}
+		jobs = append(jobs, &tj{file: "UTXO.db", n: 20, noOld: true}, &tj{file: "UTXO.db", n: L - 10, noOld: true})
+	}
 	var wg sync.WaitGroup
 	sem := make(chan bool, 12)
 	for i, j := range jobs {
@@ -623,8 +678,18 @@ func (h *Harness) truncations(w Workload, wr *WlRun, blocksFile string) {
 			defer wg.Done()
 			j.dir = fmt.Sprintf("%s/%s/trunc%04d/", h.root, w.Name, i)
 			copyTree(final, j.dir)
+			if j.file == "UTXO.db" {
+				// copyTree hard-links snapshot files: give this copy a file of its own before cutting it
+				if b, e := os.ReadFile(final + "UTXO.db"); e == nil {
+					os.Remove(j.dir + "UTXO.db")
+					os.WriteFile(j.dir+"UTXO.db", b, 0660)
+				}
+				if j.noOld {
+					os.Remove(j.dir + "UTXO.old")
+				}
+			}
 			os.Truncate(j.dir+j.file, int64(j.n))
-			j.res = runChild("client", j.dir, blocksFile)
+			j.res = runChildT("client", j.dir, blocksFile, truncWatchdog)
 			os.RemoveAll(j.dir)
 			<-sem
 		}(i, j)
@@ -644,6 +709,11 @@ func (h *Harness) truncations(w Workload, wr *WlRun, blocksFile string) {
 		r.Eval(kind, fmt.Sprintf("%s|%s|%d", w.Name, j.file, j.n))
 		rep := map[string]interface{}{"case": Case{Workload: w.Name, Mode: "client", Trunc: fmt.Sprintf("%s:%d", j.file, j.n)}, "child": c, "expected_final": wr.Final}
 		where := fmt.Sprintf("workload %s closed cleanly, %s truncated to %d bytes", w.Name, j.file, j.n)
+		if j.noOld {
+			kind += "/no-UTXO.old"
+			where += ", UTXO.old removed"
+			rep["case"] = Case{Workload: w.Name, Mode: "client", Trunc: fmt.Sprintf("%s:%d:noold", j.file, j.n)}
+		}
 		bad := ""
 		switch {
 		case c.Open != "ok":
@@ -659,8 +729,58 @@ func (h *Harness) truncations(w Workload, wr *WlRun, blocksFile string) {
 		case c.Reopen2 != "ok" || c.S4 == nil || c.S4.Tip != c.S3.Tip || c.S4.Dump != c.S3.Dump:
 			bad = "clean close + re-open does not reproduce the state: " + c.Reopen2
 		}
+		// UTXO.db unreadable = the model's `tearDb` of the final directory (oracle op `torn`): same recovered / final states
+		var tmv *modelVerdict
+		if j.file == "UTXO.db" && mdl != nil {
+			k := mdl.baseLabels + len(wr.Hits)
+			no := 0
+			if j.noOld {
+				no = 1
+			}
+			tmv = h.askModelQ(mdl, k, fmt.Sprintf("torn %d 1 %d", k, no), c)
+			switch {
+			case tmv.agrees:
+				r.TieOK()
+				r.Hit("trunc-UTXO.db:model-torn-agrees")
+			case tmv.unsupported && bad != "":
+				r.Hit("model-unsupported-in-failure-region")
+			case tmv.ambiguous && tmv.real != "panic":
+				r.Hit("model-tie-ambiguous")
+			default:
+				r.TieFail("model-torn:"+w.Shape, fmt.Sprintf("%s: the fresh process gives %s, the model (tearDb + restartFrom) gives %s", where, tmv.real, tmv.rep),
+					map[string]interface{}{"case": rep["case"], "tokens": wr.ModelTok, "k": k})
+			}
+		}
 		if bad == "" {
 			r.Hit("trunc-ok:" + j.file)
+			if j.file == "UTXO.db" && c.S1 != nil {
+				switch {
+				case c.S1.Tip == wr.Final.Tip:
+					r.Hit("trunc-UTXO.db:reopened-at-the-final-tip") // only possible if nothing was cut
+				case c.S1.Height == 0:
+					r.Hit("trunc-UTXO.db:started-over-from-genesis")
+				default:
+					r.Hit("trunc-UTXO.db:fell-back-to-UTXO.old")
+				}
+			}
+			continue
+		}
+		if j.file == "UTXO.db" && strings.HasPrefix(c.Open, "died") {
+			// watchdog, or the Go runtime's "all goroutines are asleep" (exit status 2) when the child has no other goroutine
+			r.PropFail("snapshot-truncated-reopen-hangs", "NewUnspentDb does not return (watchdog): UTXO.db has an intact header but a short record area, the retry on UTXO.old waits for the map-filler goroutine of the failed attempt: "+where+": "+bad, rep)
+			continue
+		}
+		f8 := false
+		if tmv != nil && !tmv.unsupported && !(tmv.ambiguous && !tmv.agrees) {
+			f8 = tmv.agrees && tmv.foreign
+		} else {
+			f8 = h.foreignUndoReadTo(c, wr)
+		}
+		if j.file == "UTXO.db" && f8 {
+			// fall-back to UTXO.old puts the node on the OTHER branch's snapshot: same window as the known finding F8
+			r.PropFail(keyF8, "fall-back to UTXO.old (snapshot on one branch), undo/<height> rewritten by the other branch: restart undoes blocks with the other branch's undo data: "+where+": "+bad, rep)
+			r.Hit("known:" + keyF8)
+			r.Hit("trunc-UTXO.db:fell-back-into-the-F8-window")
 			continue
 		}
 		if j.file == "blockchain.new" && j.n < (tipRec+1)*136 && strings.Contains(c.Open, "Last Block Hash not found") {
@@ -677,6 +797,46 @@ func (h *Harness) truncations(w Workload, wr *WlRun, blocksFile string) {
 		}
 		r.PropFail("truncation:"+j.file, where+": "+bad, rep)
 	}
+}
+
+// foreignUndoRead: observed on the real directory - the re-opened snapshot's block is not on the chain of the uninterrupted
+// run's final tip, so recovery has to undo it, and the undo file of that very height names another block (the file
+// UndoBlockTxs will read first). This is the F8 window seen from outside the model.
+func (h *Harness) foreignUndoRead(c *ChildRes, wr *WlRun) bool {
+	if wr.Final == nil {
+		return false
+	}
+	return h.foreignUndoOnPath(c, wr.Final.Tip)
+}
+
+// foreignUndoReadTo: the same towards the block the recovery loop moved to (if it got anywhere) or towards the final tip
+func (h *Harness) foreignUndoReadTo(c *ChildRes, wr *WlRun) bool {
+	if c.S1 != nil && c.S2 != nil && c.S2.Tip != c.S1.Tip && h.foreignUndoOnPath(c, c.S2.Tip) {
+		return true
+	}
+	return h.foreignUndoRead(c, wr)
+}
+
+func (h *Harness) foreignUndoOnPath(c *ChildRes, target string) bool {
+	if c.S1 == nil || h.ref.isAncestorOrEqual(c.S1.Tip, target) {
+		return false
+	}
+	// every height from the re-opened tip down to the fork point is undone; UndoForeign lists the heights (of the re-opened
+	// chain) whose undo file belongs to another block
+	fork := c.S1.Tip
+	for !h.ref.isAncestorOrEqual(fork, target) {
+		b := h.ref.blocks[fork]
+		if b == nil {
+			return false
+		}
+		for _, fh := range c.UndoForeign {
+			if fh == b.height {
+				return true
+			}
+		}
+		fork = b.parent
+	}
+	return false
 }
 
 // ------------------------------------------------------------------------------------------ model tie
@@ -788,6 +948,19 @@ func (h *Harness) loadModel(w Workload, wr *WlRun) *Model {
 		return nil
 	}
 	m.labels = f[1:]
+	// the uninterrupted run of the model: same final state as the real run, and it has read no undo file of another block
+	// (= the hypothesis `(run bigs ops).foreign = false` of crash_consistent & co holds for this workload)
+	if wr.Final != nil {
+		fin := h.o.MustAsk("final")
+		want := fmt.Sprintf("ok %d %s 0", m.blockID[wr.Final.Tip], h.coinsToIDs(m, wr.Final))
+		if fin == want {
+			r.TieOK()
+			r.Hit("model-final-agrees-and-run-read-no-foreign-undo")
+		} else {
+			r.TieFail("model-final:"+w.Shape, fmt.Sprintf("workload %s: the uninterrupted run ends at %s (tip, coins, foreign-undo flag 0), the model's run gives %s", w.Name, want, fin),
+				map[string]interface{}{"case": Case{Workload: w.Name}, "tokens": toks})
+		}
+	}
 	return m
 }
 
@@ -843,46 +1016,88 @@ func (h *Harness) coinsToIDs(m *Model, s *State) string {
 	return strings.Join(ss, ",")
 }
 
-func (h *Harness) compareModel(w Workload, wr *WlRun, m *Model, ht Hit, c *ChildRes, propOK bool) {
-	r := h.r
+// modelVerdict: the oracle's answer to `crash k` set against the real re-open report of the same crash point
+type modelVerdict struct {
+	k           int
+	rep         string // the oracle's reply
+	real        string // the real report in the same vocabulary ("panic" when the child reported no state at some stage)
+	agrees      bool   // same (tip1, tip2, coins2, tip3, coins3), or both sides panic
+	foreign     bool   // the model's ghost flag: the restart read an undo file of another block
+	ambiguous   bool   // equal-height leaves on disk: the real code's choice depends on Go map order
+	unsupported bool   // the model stopped at a construct it does not contain (DeleteBranch)
+}
+
+func (h *Harness) askModel(m *Model, ht Hit, c *ChildRes) *modelVerdict {
 	k := m.baseLabels + ht.N
-	rep := h.o.MustAsk(fmt.Sprintf("crash %d", k))
-	// reply: ok <tip1> <tip2> <coins2> <tip3> <coins3> <ambiguous 0|1> <foreign 0|1>   |  panic <stage> <what>
-	f := strings.Fields(rep)
-	if !propOK && strings.HasPrefix(rep, "panic unsupported") {
+	return h.askModelQ(m, k, fmt.Sprintf("crash %d", k), c)
+}
+
+func (h *Harness) askModelQ(m *Model, k int, query string, c *ChildRes) *modelVerdict {
+	mv := &modelVerdict{k: k}
+	mv.rep = h.o.MustAsk(query)
+	// reply: ok <tip1> <tip2> <coins2> <tip3> <coins3> <ambiguous 0|1> <foreign 0|1>   |  panic <what> <foreign 0|1>
+	f := strings.Fields(mv.rep)
+	mv.unsupported = strings.Contains(mv.rep, "unsupported")
+	if len(f) >= 3 && f[0] == "panic" {
+		mv.foreign = f[len(f)-1] == "1"
+	}
+	if c.S1 != nil && c.S2 != nil && c.S3 != nil {
+		mv.real = fmt.Sprintf("ok %d %d %s %d %s", m.blockID[c.S1.Tip], m.blockID[c.S2.Tip], h.coinsToIDs(m, c.S2), m.blockID[c.S3.Tip], h.coinsToIDs(m, c.S3))
+	} else {
+		mv.real = "panic"
+	}
+	if len(f) == 8 && f[0] == "ok" {
+		mv.agrees = strings.Join(f[:6], " ") == mv.real
+		mv.ambiguous = f[6] == "1"
+		mv.foreign = f[7] == "1"
+	} else if len(f) > 0 && f[0] == "panic" && !mv.unsupported {
+		mv.agrees = mv.real == "panic"
+	}
+	return mv
+}
+
+func (h *Harness) compareModel(w Workload, wr *WlRun, m *Model, ht Hit, c *ChildRes, propOK bool, mv *modelVerdict) {
+	r := h.r
+	rep := mv.rep
+	if !propOK && mv.unsupported {
 		// inside the known-finding region the corrupted UTXO set makes a VALID block fail; DeleteBranch is not modelled
 		r.Hit("model-unsupported-in-failure-region")
 		return
 	}
-	real := fmt.Sprintf("ok %d %d %s %d %s", m.blockID[c.S1.Tip], m.blockID[c.S2.Tip], h.coinsToIDs(m, c.S2), m.blockID[c.S3.Tip], h.coinsToIDs(m, c.S3))
-	if len(f) == 8 && f[0] == "ok" {
-		mod := strings.Join(f[:6], " ")
-		if mod == real {
-			// the ghost flag of the model (an undo file of another block was read) is the exclusion hypothesis of the Lean theorem
-			// recovered_set_is_replay: wherever the real code's recovered state is wrong, the model must have raised it
-			if !propOK && f[7] != "1" {
-				r.TieFail("model-foreign-flag:"+w.Shape, fmt.Sprintf("workload %s crash point %d (%s#%d): the property fails on the real code and the model predicts the same state, but the model did not read an undo file of another block there (ghost flag 0): the exclusion hypothesis of recovered_set_is_replay does not cover this failure", w.Name, ht.N, ht.Name, ht.Idx),
-					map[string]interface{}{"case": Case{Workload: w.Name, Hit: ht.N, Mode: "client"}, "tokens": wr.ModelTok, "k": k})
-				return
-			}
-			if f[7] == "1" {
-				if propOK {
-					r.Hit("model-foreign-undo-read-but-harmless")
-				} else {
-					r.Hit("model-foreign-undo-read-and-property-fails")
-				}
-			}
+	if mv.agrees {
+		if mv.real == "panic" {
+			r.Hit("model-predicts-the-panic")
 			r.TieOK()
 			return
 		}
-		if f[6] == "1" {
-			// equal-work leaves on disk: the real code's choice depends on Go map iteration order
-			r.Hit("model-tie-ambiguous")
+		// the ghost flag of the model (an undo file of another block was read) is the exclusion hypothesis of the Lean theorem
+		// recovered_set_is_replay: wherever the real code's recovered state is wrong, the model must have raised it
+		if !propOK && !mv.foreign {
+			r.TieFail("model-foreign-flag:"+w.Shape, fmt.Sprintf("workload %s crash point %d (%s#%d): the property fails on the real code and the model predicts the same state, but the model did not read an undo file of another block there (ghost flag 0): the exclusion hypothesis of recovered_set_is_replay does not cover this failure", w.Name, ht.N, ht.Name, ht.Idx),
+				map[string]interface{}{"case": Case{Workload: w.Name, Hit: ht.N, Mode: "client"}, "tokens": wr.ModelTok, "k": mv.k})
 			return
 		}
+		if mv.foreign {
+			if propOK {
+				r.Hit("model-foreign-undo-read-but-harmless")
+			} else {
+				r.Hit("model-foreign-undo-read-and-property-fails")
+			}
+		}
+		r.TieOK()
+		return
 	}
-	r.TieFail("model-recover:"+w.Shape, fmt.Sprintf("workload %s crash point %d (%s#%d): real recovery gives %s, the model gives %s", w.Name, ht.N, ht.Name, ht.Idx, real, rep),
-		map[string]interface{}{"case": Case{Workload: w.Name, Hit: ht.N, Mode: "client"}, "tokens": wr.ModelTok, "k": k})
+	if mv.ambiguous && mv.real != "panic" {
+		// equal-work leaves on disk: the real code's choice depends on Go map iteration order
+		r.Hit("model-tie-ambiguous")
+		return
+	}
+	what := "real recovery gives " + mv.real
+	if mv.real == "panic" {
+		what = fmt.Sprintf("the fresh process reported no state at some stage (open %q, recovery %q, fed: %v)", c.Open, c.Recovery, c.S3 != nil)
+	}
+	r.TieFail("model-recover:"+w.Shape, fmt.Sprintf("workload %s crash point %d (%s#%d): %s, the model gives %s", w.Name, ht.N, ht.Name, ht.Idx, what, rep),
+		map[string]interface{}{"case": Case{Workload: w.Name, Hit: ht.N, Mode: "client"}, "tokens": wr.ModelTok, "k": mv.k})
 }
 
 // ------------------------------------------------------------------------------------------ replay
